@@ -58,7 +58,7 @@ theorem public_line_audience (w : ChatWorld) (hw : w.Inv) (a r : Nat) (c : Clien
     exact (hw.reg.ids_nodup).sublist (hsub.map _)
   · rw [houts, List.filterMap_map]
     rw [filterMap_eq_filter_map readers _ (fun _ => true) (·.conn)]
-    · simp
+    · rw [List.filter_eq_self.mpr (fun _ _ => rfl)]
     · intro d hd
       have hd' : d ∈ w.reg.clients := (List.mem_filter.mp hd).1
       simp [Function.comp, deliver, mkTran, Registry.get_of_mem hw.reg.sorted hd']
@@ -128,10 +128,9 @@ theorem join_notice_audience (w : ChatWorld) (hw : w.Inv) (hns : w.NoStaleReuse)
   intro outs
   have hid := (Registry.get_some hg).2
   have houts : ∃ fs, outs = (w.members cid).map (fun m => mkTran 117 m.1 ([⟨114, be32 cid⟩] ++ whoFieldsFull c)) ++ [mkReply c r fs] := by
-    refine ⟨_, ?_⟩
-    show (w.step (.join a r cid)).2 = _
+    show ∃ fs, (w.step (.join a r cid)).2 = _ ++ [mkReply c r fs]
     simp only [ChatWorld.step, hg, stepJoin]
-    rfl
+    exact ⟨_, rfl⟩
   obtain ⟨fs, houts⟩ := houts
   exact ⟨mkReply c r fs, houts, rfl, hid, rfl, w.members_delivery hns cid _ (fun _ => rfl), w.connectedMembers_nodup hw cid⟩
 
